@@ -32,6 +32,9 @@ class NohBlackBoxEos(ExactSolver):
         def __init__(self, equation_of_state, initial_conditions = {'density': 1, 'velocity': -1, 'pressure': 0, 'symmetry': 2}, **kwargs): # EoS object (as of now) is designed to be object from the eos_library.py file.
             super(NohBlackBoxEos, self).__init__(**kwargs)
             self.eos = equation_of_state
+            # each object owns its Newton solver: the class-level one would carry a tolerance,
+            # guess or residual function set through one object into the solves of all others
+            self.solver = newton_solver()
             self.symmetry = initial_conditions['symmetry']
             self.initial_conditions =initial_conditions # Maybe refactor this later so users can change initial conditions. For now focus on black box eos interaction.
             # the unshocked profile in _run() must be the one the jump conditions were solved for
